@@ -29,7 +29,7 @@ def run(c):
             if "DATA RACE" in err:
                 m = re.findall(r"^\s+(\S+go-uefi\S*|\S*/(?:authenticode|pkcs7|efi|efivarfs)/\S+\.go):(\d+)", err, re.M)
                 site = "%s:%s" % (re.sub(r"^.*/(authenticode|pkcs7|efi|efivarfs)/", r"\1/", m[0][0]), m[0][1]) if m else "?"
-                c.report("race:%s:%s" % (s["kind"], site), "data race reported by the race detector running %s" % s["ops"], {"program": s, "report": err[-3000:]})
+                c.report("race:%s:%s" % (s["kind"], site), "data race reported by the race detector running %s" % s["ops"], dict({"program": s, "report": err[-3000:]}, **c.rp("ropure", s, validate=("ReadOnlyOpsTrace", "ReadOnlyOpsTrace.cfg"), race=True, strip=("sc", "ev", "kind", "variant"))))
             else:
                 c.report("death:%s:%s" % (d["kind"], s["kind"]), "process died running read-only operations", {"program": s, "death": d})
             continue
@@ -58,7 +58,7 @@ def run(c):
             finally:
                 c.worker_bin = old
         c.report(key, "operation %s on the %s returned %s which differs from its result on a fresh object (program %s, goroutine %s)" % (
-            e.get("call"), s["kind"], e.get("res"), s["ops"], e.get("g")), {"program": s, "event": e})
+            e.get("call"), s["kind"], e.get("res"), s["ops"], e.get("g")), dict({"program": s, "event": e}, **c.rp("ropure", s, validate=("ReadOnlyOpsTrace", "ReadOnlyOpsTrace.cfg"), race=True, strip=("sc", "ev", "kind", "variant"))))
     c.cov["evaluations"] = len(scen)
     c.cov["traces_validated_against_impl"] = len(scen)
     c.cov["sequential_orders"] = nseq
